@@ -414,7 +414,7 @@ def getitem(interp, obj, idx, node):
         return obj.items[ci]
     if isinstance(obj, VList):
         i = _index(interp, idx)
-        i2 = z3.If(i < 0, i + obj.length, i)
+        i2 = i if _known_nonneg(interp, i) else z3.If(i < 0, i + obj.length, i)
         if not interp.spec and not interp.branch(z3.And(i2 >= 0, i2 < obj.length), "index"):
             interp.raise_("IndexError", node=node)
         return ops.list_get(obj, i2)
@@ -427,6 +427,41 @@ def getitem(interp, obj, idx, node):
     if isinstance(obj, (VClass, VModule)):
         return obj  # typing subscripts
     raise Unsupported(f"getitem on {obj!r}")
+
+
+def _known_nonneg(interp, i):
+    """the index is certainly not negative (then Python's wrap-around `i + len` plays no role and the array is
+    selected at `i` itself, which keeps quantifier patterns simple).  Only an encoding choice: both forms are
+    equal under the path condition."""
+    from .symex import QRANGES
+    c = concrete_int(i)
+    if c is not None:
+        return c >= 0
+    i = z3.simplify(i)
+    cache = interp.ctx.__dict__.setdefault("_nonneg_cache", {})
+    key = i.get_id()
+    if key in cache:
+        return cache[key]
+    res = False
+    base = i
+    # q, q + c, c + q with c >= 0
+    if z3.is_add(i) and len(i.children()) == 2:
+        a, b = i.children()
+        if z3.is_int_value(a) and a.as_long() >= 0:
+            base = b
+        elif z3.is_int_value(b) and b.as_long() >= 0:
+            base = a
+    if z3.is_const(base) and base.decl().kind() == z3.Z3_OP_UNINTERPRETED:
+        nm = base.decl().name()
+        bound = getattr(interp, "bound_names", None) or set()
+        if nm in bound and nm in QRANGES:
+            lo = QRANGES[nm][0]
+            cl = concrete_int(lo)
+            res = cl >= 0 if cl is not None else bool(interp.ctx.implied(lo >= 0, 1000))
+        elif nm not in bound:
+            res = bool(interp.ctx.implied(base >= 0, 1000))
+    cache[key] = res
+    return res
 
 
 def _slice_value(lo, hi):
@@ -1548,7 +1583,7 @@ def _enumerate(it, a, k, n):
     view = iter_view(it, it.need(a[0]), n)
     start = as_int(a[1]) if len(a) > 1 else as_int(k["start"]) if "start" in k else z3.IntVal(0)
     o = VObj("enumerate", {})
-    o.fields["__view__"] = View(view.length, lambda i: VTuple([VInt(start + i), view.get(i)]))
+    o.fields["__view__"] = View(view.length, lambda i: VTuple([VInt(start + i), view.get(i)]), view.consume)
     return o
 
 
@@ -1574,19 +1609,26 @@ def _reversed(it, a, k, n):
 def _iter(it, a, k, n):
     from .loops import iter_view
     v = it.need(a[0])
+    if isinstance(v, VObj) and "__view__" in v.fields and "__pos__" in v.fields:
+        return v   # iter(iterator) is the iterator
     o = VObj("iterator", {"__pos__": VInt(0)})
     o.fields["__view__"] = iter_view(it, v, n)
+    if isinstance(v, VList):
+        # list iterators read the live list (see loops.iterator_view)
+        o.fields["__live__"] = v
+        o.fields["__snap__"] = ops.snapshot(v)
     return o
 
 
 def _next(it, a, k, n):
     o = it.need(a[0])
     if isinstance(o, VObj) and "__view__" in o.fields and "__pos__" in o.fields:
-        view = o.fields["__view__"]
-        pos = o.fields["__pos__"].z
-        if it.branch(pos < view.length, "next"):
-            o.fields["__pos__"] = VInt(pos + 1)
-            return view.get(pos)
+        from .loops import iterator_view
+        view = iterator_view(it, o, n)
+        if it.branch(view.length > 0, "next"):
+            x = view.get(z3.IntVal(0))
+            view.consume(1)
+            return x
         if len(a) > 1:
             return a[1]
         it.raise_("StopIteration", node=n)
